@@ -6,6 +6,12 @@ use super::*;
 use crate::value::unit::kani_verif::css_ratio;
 use crate::value::{Unit, UnitSet};
 
+/// `format!` in the string arms of `eval` costs CBMC minutes per call site;
+/// no law below depends on the text it produces.
+fn format_stub(_args: std::fmt::Arguments<'_>) -> String {
+    String::new()
+}
+
 fn numeric(v: f64, u: Unit) -> Value {
     Value::Numeric(Numeric::new(v, UnitSet::from(u)), kani::any())
 }
@@ -59,11 +65,13 @@ fn plus_minus(op: Operator, sign: f64, ua: Unit, ub: Unit) {
 macro_rules! pair {
     ($plus:ident, $minus:ident, $a:ident, $b:ident) => {
         #[kani::proof]
+        #[kani::stub(std::fmt::format, format_stub)]
         #[kani::unwind(4)]
         fn $plus() {
             plus_minus(Operator::Plus, 1.0, Unit::$a, Unit::$b);
         }
         #[kani::proof]
+        #[kani::stub(std::fmt::format, format_stub)]
         #[kani::unwind(4)]
         fn $minus() {
             plus_minus(Operator::Minus, -1.0, Unit::$a, Unit::$b);
@@ -85,6 +93,7 @@ pair!(c11_operator_plus_s_hz, c11_operator_minus_s_hz, S, Hz);
 /// C12 through the operator table: `<`/`>`/`==` on two px numbers are
 /// mutually exclusive and mirrored; `!=` is the negation of `==`.
 #[kani::proof]
+#[kani::stub(std::fmt::format, format_stub)]
 #[kani::unwind(4)]
 fn c12_operator_cmp_consistent() {
     let (x, y): (f64, f64) = (kani::any(), kani::any());
@@ -145,6 +154,7 @@ fn and_or(ta: u8, tb: u8) {
 macro_rules! per_kind {
     ($name:ident, $ta:expr) => {
         #[kani::proof]
+        #[kani::stub(std::fmt::format, format_stub)]
         #[kani::unwind(4)]
         fn $name() {
             and_or($ta, 0);
